@@ -857,13 +857,15 @@ def codec_predict(codecdrv, tokroot):
     return want, nfiles, state
 
 
-def codec_compare(pred, disk):
+def codec_compare(pred, disk, strict=True):
     """prediction of codec_predict against what the recovering library returns: (message or None, files, state).
     Compared: the NUMBER of objects (every file the model reads as valid - an empty file included - is an object, every
     file it rejects is none) and, for files with an explicit CKA_PRIVATE = false and a label, label and CKA_VALUE."""
     want, nfiles, state = pred
     if len(want) != len(disk):
         return ('the Coq codec reads %d valid object files in the crash state, the recovering library returns %d objects' % (len(want), len(disk)), nfiles, state)
+    if not strict:
+        return (None, nfiles, state)       # mutated attribute values change what the PKCS#11 layer reveals: only the object count is comparable
     api = {}
     for lab, a in disk.items():
         d = {t: (l, x) for (t, l, x) in a}
